@@ -180,8 +180,11 @@ def history_case(ctx, case) -> None:
             before = path.read_bytes() if path.exists() else None
             before_parsed = json.loads(before) if before is not None else {}
             _AUDIT["events"].clear()
-            use_dispatcher = (not failing) and rng.random() < 0.04
-            if use_dispatcher and (not name.strip() or len(name) > 40 or name != name.strip() or not all(ch.isalnum() or ch == "." for ch in name) or name.startswith(".")):
+            use_dispatcher = (not failing) and rng.random() < 0.06
+            if use_dispatcher and rng.random() < 0.6:
+                # run names that agree up to their last dot (seeds, learning rates, timestamps) share plot file names
+                name = rng.choice(["run.1", "run.2", "run.3", "lr0.0003", "lr0.0001", "2026-10-01T12:00:00.123", "2026-10-01T12:00:00.456"])
+            if use_dispatcher and (not name.strip() or len(name) > 40 or name != name.strip() or not all(ch.isalnum() or ch in ".-:" for ch in name) or name.startswith(".")):
                 use_dispatcher = False       # the plot savers build file names from the run name: keep those saves on save_json
             if use_dispatcher:
                 # the plot / drawing savers have their own input assumptions (finite gaps, coalition ids): realistic matrices
